@@ -272,6 +272,20 @@ class BaseDiscretizer(BaseEstimator, TransformerMixin):
         return X
 
     def _prepare_data(self, X: DataFrame, y: Series = None) -> DataFrame:
+        """Validates format and content of X and y before fitting.
+
+        Raises an AssertionError if the discretizer has already been fitted: fit steps would
+        otherwise modify established orders before the check done at the end of fit.
+        """
+        # checking for previous fits of the discretizer that could cause unwanted errors
+        assert not self.is_fitted, (
+            " - [Discretizer] This Discretizer has already been fitted. "
+            "Fitting it anew could break established orders. Please initialize a new one."
+        )
+
+        return self.__prepare_data(X, y)
+
+    def __prepare_data(self, X: DataFrame, y: Series = None) -> DataFrame:
         """Validates format and content of X and y.
 
         Parameters
@@ -325,8 +339,6 @@ class BaseDiscretizer(BaseEstimator, TransformerMixin):
                 ), " - [Discretizer] X and y must have the same indices."
 
         return x_copy
-
-    __prepare_data = _prepare_data  # private copy
 
     def _check_new_values(self, X: DataFrame, features: list[str]) -> None:
         """Checks for new, unexpected values, in X
